@@ -131,6 +131,8 @@ class Translator:
             return 'list (Z)'
         if q in self.records:
             return q
+        if '__normal_iterator<' in q or q.endswith('::iterator') or q.endswith('::const_iterator') or q.endswith('::difference_type'):
+            return 'Z'
         m = re.match(r'boost::optional<(.*)>$', q)
         if m:
             return 'option (%s)' % self.ctype(m.group(1))
@@ -183,7 +185,7 @@ class Translator:
         if k in ('CXXOperatorCallExpr', 'CXXMemberCallExpr', 'CallExpr'):
             cal = self.callee(node)
             if cal is not None:
-                if cal[0] in ('deref', 'ndidx', 'ndadd'):
+                if cal[0] in ('deref', 'ndidx', 'ndadd', 'itderef'):
                     return True
                 f = self.funcs.get(cal[1]) if cal[0] == 'fn' else None
                 if f and f['monadic']:
@@ -229,6 +231,10 @@ class Translator:
                 return ('hasattr', obj, inner[1])
             if nm == 'getAttr' and len(inner) == 3:
                 return ('getattr', obj, inner[1], inner[2])
+            if nm in ('begin', 'cbegin') and len(inner) == 1:
+                return ('itbegin', obj)
+            if nm in ('end', 'cend') and len(inner) == 1:
+                return ('itend', obj)
             if nm == 'size' or nm == 'length':
                 return ('size', obj)
             if nm == 'empty':
@@ -245,6 +251,11 @@ class Translator:
             ref = self.strip(inner[0])
             nm = ref.get('referencedDecl', {}).get('name', '')
             args = inner[1:]
+            if args and self.is_iter(args[0]):
+                if nm == 'operator*':
+                    return ('itderef', args[0])
+                if nm in ('operator-', 'operator+', 'operator<', 'operator<=', 'operator>', 'operator>=', 'operator==', 'operator!=') and len(args) == 2:
+                    return ('itop', nm[8:], args[0], args[1])
             if nm == 'operator*':
                 return ('deref', args[0])
             if nm == 'operator!' and self.is_optional(args[0]):
@@ -272,6 +283,13 @@ class Translator:
             nm = ref.get('referencedDecl', {}).get('name', '')
             if nm in ('ceil', 'floor', 'round', 'fabs'):
                 return ('math', nm, inner[1:])
+            if nm == 'prev' and len(inner) >= 2 and self.is_iter(inner[1]):
+                extra = [a for a in inner[2:] if a.get('kind') != 'CXXDefaultArgExpr']
+                if extra:
+                    raise Unsupported('std::prev with a distance')
+                return ('itprev', inner[1])
+            if nm == 'lower_bound' and len(inner) == 4:
+                return ('lower_bound', inner[1], inner[2], inner[3])
             if nm == 'epsilon':
                 return ('epsilon',)
             if nm in self.funcs_pending:
@@ -398,6 +416,48 @@ class Translator:
                 return b, '(opt_is_some %s)' % t
             if cal[0] == 'ambientcall':
                 return [], cname(cal[1])
+            if cal[0] == 'itbegin':
+                cx.iter_of = cal[1]
+                return [], '(0)'
+            if cal[0] == 'itend':
+                cx.iter_of = cal[1]
+                b, t = self.expr(cal[1], cx)
+                return b, '(zlen %s)' % t
+            if cal[0] == 'itprev':
+                b, t = self.expr(cal[1], cx)
+                return b, '(Z.sub %s 1)' % t
+            if cal[0] == 'itderef':
+                vec = self.iter_vec(cal[1])
+                if vec is None:
+                    vec = getattr(cx, 'iter_of', None)
+                if vec is None:
+                    raise Unsupported('dereference of an iterator over an unknown vector')
+                bv, tv = self.expr(vec, cx)
+                b, t = self.expr(cal[1], cx)
+                v = cx.fresh('it')
+                return bv + b + [(v, '(iter_deref %s %s)' % (tv, t))], v
+            if cal[0] == 'itop':
+                b1, t1 = self.expr(cal[2], cx)
+                b2, t2 = self.expr(cal[3], cx)
+                fn = {'-': 'Z.sub', '+': 'Z.add', '<': 'Z.ltb', '<=': 'Z.leb', '>': 'Z.gtb', '>=': 'Z.geb', '==': 'Z.eqb'}.get(cal[1])
+                if cal[1] == '!=':
+                    return b1 + b2, '(negb (Z.eqb %s %s))' % (t1, t2)
+                return b1 + b2, '(%s %s %s)' % (fn, t1, t2)
+            if cal[0] == 'lower_bound':
+                def unwrap(x):
+                    x = self.strip(x)
+                    while x.get('kind') == 'CXXConstructExpr' and len(x.get('inner', [])) == 1:
+                        x = self.strip(x['inner'][0])
+                    return x
+                ub, ue = unwrap(cal[1]), unwrap(cal[2])
+                fb = self.callee(ub) if ub.get('kind') == 'CXXMemberCallExpr' else None
+                fe = self.callee(ue) if ue.get('kind') == 'CXXMemberCallExpr' else None
+                if not fb or not fe or fb[0] != 'itbegin' or fe[0] != 'itend':
+                    raise Unsupported('std::lower_bound over anything but [begin(), end())')
+                cx.iter_of = fb[1]
+                bv, tv = self.expr(fb[1], cx)
+                bx, tx = self.expr(cal[3], cx)
+                return bv + bx, '(lower_bound %s %s)' % (tv, tx)
             if cal[0] == 'ndbool':
                 b, t = self.expr(cal[1], cx)
                 return b, '(Z.ltb 0 (zlen %s))' % t
@@ -553,6 +613,25 @@ class Translator:
             raise Unsupported('initialiser of constant ' + nm)
         self.globals[nm] = t
         return t
+
+    def is_iter(self, n):
+        q = self.strip(n).get('type', {}).get('qualType', '')
+        return '__normal_iterator<' in q or q.replace('const ', '').strip().endswith('::iterator')
+
+    def iter_vec(self, n):
+        """the vector expression an iterator-valued expression walks over (begin()/end() of exactly one vector
+        per function are supported); None when it cannot be told from the expression itself"""
+        n = self.strip(n)
+        if n.get('kind') == 'CXXMemberCallExpr':
+            me = self.strip(n['inner'][0])
+            if me.get('kind') == 'MemberExpr' and me.get('name') in ('begin', 'end', 'cbegin', 'cend'):
+                return me['inner'][0]
+        for c in n.get('inner', []) or []:
+            if isinstance(c, dict):
+                r = self.iter_vec(c)
+                if r is not None:
+                    return r
+        return None
 
     def is_ndsize(self, n):
         q = self.strip(n).get('type', {}).get('qualType', '').replace('const ', '').replace('&', '').replace('nix::', '').strip()
